@@ -1350,3 +1350,30 @@ impl FromCsv for AnnotationDataSet {
         Ok(dataset)
     }
 }
+
+/// Verification hooks (compiled only with `--cfg stam_verif`): the reader of one row of the annotations table.
+#[cfg(stam_verif)]
+pub mod verif_hooks_csv {
+    use super::*;
+    /// what `TryInto<AnnotationBuilder> for AnnotationCsv` builds from the eight target cells of a row
+    /// (SelectorType, TargetResource, TargetAnnotation, TargetDataSet, BeginOffset, EndOffset, TargetKey, TargetData);
+    /// an empty TargetKey / TargetData cell is a missing value, as the CSV reader delivers it
+    pub fn verif_csv_row_target(cells: [&str; 8]) -> Result<SelectorBuilder<'static>, String> {
+        let opt = |s: &str| if s.is_empty() { None } else { Some(Cow::Owned(s.to_string())) };
+        let row = AnnotationCsv {
+            id: None,
+            data_ids: Cow::Borrowed(""),
+            set_ids: Cow::Borrowed(""),
+            selectortype: Cow::Owned(cells[0].to_string()),
+            targetresource: Cow::Owned(cells[1].to_string()),
+            targetannotation: Cow::Owned(cells[2].to_string()),
+            targetdataset: Cow::Owned(cells[3].to_string()),
+            begin: cells[4].to_string(),
+            end: cells[5].to_string(),
+            targetkey: opt(cells[6]),
+            targetdata: opt(cells[7]),
+        };
+        let builder: AnnotationBuilder<'static> = row.try_into().map_err(|e: StamError| format!("{}", e))?;
+        builder.target.ok_or_else(|| "no target".to_string())
+    }
+}
